@@ -29,6 +29,10 @@ def main():
                 print("   ", l[:300])
     finally:
         subprocess.run(["git", "-C", "/repo", "checkout", "--", "."], check=True)
+        # the generated tables in /verif were regenerated from the patched tree: bring them back to the unchanged tree, so
+        # that a commit made now does not record a seeded table as the reference copy
+        subprocess.run([sys.executable, os.path.join(VERIF, "tools", "gen_tables.py"), "/repo",
+                        os.path.join(VERIF, "lean", "Svgbob", "Gen")], stdout=subprocess.DEVNULL)
     return 0
 
 
